@@ -166,7 +166,8 @@ def _(case, vio):
 @known("argsort_with_missing")
 def _(case, vio):
     kind, op, parts = _parts(vio)
-    return op in ("argsort", "sort") and bool(parts & {"none_leaf", "missing_list"}) and kind in ("value", "closure", "refused", "errorclass")
+    opt = any(any_node(d, lambda n: n["class"].startswith(("IndexedOption", "ByteMasked", "BitMasked", "Unmasked"))) for d in descs_of(case))
+    return op in ("argsort", "sort") and (bool(parts & {"none_leaf", "missing_list"}) or opt) and kind in ("value", "closure", "refused", "errorclass")
 
 
 @known("sort_nonlocal_deep")
@@ -189,3 +190,46 @@ def _(case, vio):
     kind, op, parts = _parts(vio)
     lb = _levels_below_axis(parts)
     return op == "argsort" and lb is not None and lb >= 1 and kind in ("value", "errorclass")
+
+
+def has_zero_field_record(d):
+    return any_node(d, lambda n: n["class"] == "RecordArray" and len(n["contents"]) == 0)
+
+
+@known("zero_field_records")
+def _(case, vio):
+    return any(has_zero_field_record(d) for d in descs_of(case))
+
+
+def empty_advanced(spec):
+    if spec.get("op") != "getitem":
+        return False
+    for it in spec.get("items", []):
+        if it.get("k") == "array" and _size(it["data"]) == 0:
+            return True
+        if it.get("k") == "mask" and not _any_true(it["data"]):
+            return True
+    return False
+
+
+def _size(x):
+    if isinstance(x, list):
+        return sum(_size(e) for e in x) if x and isinstance(x[0], list) else len(x)
+    return 1
+
+
+def _any_true(x):
+    if isinstance(x, list):
+        return any(_any_true(e) for e in x)
+    return bool(x)
+
+
+@known("empty_advanced_index")
+def _(case, vio):
+    return empty_advanced(case.get("spec", {}))
+
+
+@known("sort_records")
+def _(case, vio):
+    kind, op, parts = _parts(vio)
+    return op in ("sort", "argsort") and "rec" in parts
